@@ -199,7 +199,7 @@ func evalDoc(c *rt.Case) (bool, string, string, error) {
 	if strings.HasPrefix(c.Doc, "large#") {
 		var i, v int
 		fmt.Sscanf(c.Doc, "large#%d/variant%d", &i, &v)
-		large := append(append(docgen.LargeDocs(), docgen.NumberDocs()...), docgen.MemberDocs()...)
+		large := append(docgen.LargeDocs(), docgen.ExtraDocs()...)
 		if i >= len(large) {
 			return false, "", "", fmt.Errorf("no such large document")
 		}
